@@ -42,6 +42,10 @@ func (c19) Gen(r *rand.Rand, tier string, run int) *core.Case {
 	c.Params["multi_addr"] = r.IntN(2)
 	c.Params["addr_order"] = r.IntN(2)
 	c.Params["subscribe"] = r.IntN(2)
+	if r.IntN(4) == 0 {
+		c.Params["early_service"] = 1
+		c.Params["early_delay"] = r.IntN(120)
+	}
 	n := 2 + r.IntN(5)
 	if r.IntN(8) == 0 {
 		// "any number of goroutines": more of them than the server queues
@@ -151,6 +155,21 @@ func (c19) Run(c *core.Case, env *core.Env) {
 	env.S.Quiesce()
 	// the session under test
 	zzsim.SetNode("client")
+	var earlyDone chan struct{}
+	if c.P("early_service", 0) == 1 {
+		// a service that becomes ready while the session is being created
+		earlyDone = make(chan struct{})
+		go func() {
+			defer close(earlyDone)
+			zzsim.SetNode("server0")
+			for j := 0; j < c.P("early_delay", 0); j++ {
+				zzsim.Yield("h.early-service")
+			}
+			if _, err := dsrv.NewService("ProbeEarly", probe.ProbeObject(&ProbeImpl{Env: env, Obj: 78})); err != nil {
+				env.Violate("harness/setup", "early service: %v", err)
+			}
+		}()
+	}
 	h := env.Invoke(0, "session", "")
 	sess, err := session.NewAuthSession(ServerAddr, "u", "p")
 	env.Return(h, "", err)
@@ -158,6 +177,11 @@ func (c19) Run(c *core.Case, env *core.Env) {
 	if err != nil {
 		env.Violate("session-refused", "%v", err)
 		return
+	}
+	if earlyDone != nil {
+		<-earlyDone
+		env.S.Quiesce()
+		env.Probe("service-registered-while-the-session-was-created")
 	}
 	phase := func(kind string) {
 	by := map[int][]core.Op{}
@@ -272,13 +296,19 @@ func (c19) Run(c *core.Case, env *core.Env) {
 	phase("proxy2")
 	env.S.Quiesce()
 	// all proxies still work afterwards: one more call per service
-	for i := 0; i <= len(st.addrs); i++ {
+	for i := 0; i <= len(st.addrs)+1; i++ {
 		name := fmt.Sprintf("Probe%d", i)
 		if i == len(st.addrs) {
 			if !st.lateOK {
-				break
+				continue
 			}
 			name = "ProbeLate"
+		}
+		if i == len(st.addrs)+1 {
+			if earlyDone == nil {
+				continue
+			}
+			name = "ProbeEarly"
 		}
 		zzsim.SetNode("client")
 		h := env.Invoke(90, "proxy", name)
@@ -333,6 +363,9 @@ func (c19) Check(c *core.Case, env *core.Env, res zzsim.Result, v *core.Verdict)
 			obj := strings.TrimPrefix(name, "Probe")
 			if obj == "Late" {
 				obj = "77"
+			}
+			if obj == "Early" {
+				obj = "78"
 			}
 			if !strings.HasPrefix(h.Out, key+":") || !strings.Contains(h.Out, "|o"+obj+"|") {
 				bad("wrong-reply", "%s returned %q", h, h.Out)
